@@ -221,8 +221,8 @@ theorem ntflColF_spec
     exact h
   have hA : o.A = (ntMr (Matrix.of Ms) (Matrix.of Ml)).mulVec as := by
     rw [← hMr]
-    show memo (fmulVec _ as) = _
-    rw [memo_eq, fmulVec_eq]
+    show look (tab (fmulVec _ as)) = _
+    rw [look_tab, fmulVec_eq]
     rfl
   refine ⟨hMr, hA, ?_, ?_, rfl⟩
   · rw [← hA]
